@@ -162,3 +162,6 @@ def run(ctx):
                     fresh = fresh_term(ev, ebits)
                     same_wallet(ob, ev, v, f, cls, wallet_of(SP.bip39_seed(fresh, pw), fresh, pw),
                                 'new_wallet(%d words) draws %d bits and forwards password/network' % (words, ebits), fi.where)
+    # the command line is one of the routes by which a sentence and a passphrase reach these constructors
+    from .C20 import check_secret_options
+    check_secret_options(ctx, 'C03.CLI', ('password', 'mnemonic', 'seed_hex', 'entropy_hex', 'master_xprv'))
